@@ -23,38 +23,74 @@ CLAIM = dict(
           "with-structured programs: a resolved argument is the explicit one, else that of the innermost context setting it, "
           "else the default, which is the one the source pairs with the parameter (precedence, default_param, default_kwonly, "
           "passing_styles_agree); a call with a Required argument left is rejected and emits nothing, and is "
-          "accepted otherwise (required_rejected, accepted_complete, rejected_sends_nothing); after any block - any nesting, normal exit, exception at any depth, "
-          "failing stop signal - the stack is exactly the one before (restore); an application block ends with a stop "
-          "signal resolved to the block's application (application_stops); the connection used is the local Ethernet "
-          "chip's when known, the BMP's most specific one (connection_choice).  The signature of every decorated method "
-          "of both controllers is regenerated from source and proved well-formed for the decorator.  Tied to the code on "
-          "every run: every decorated method x passing style (positional/keyword/context/default/mixed) x nesting, plus "
-          "random programs with exceptions at every depth, run on the real controllers over recording fake connections; "
-          "resolved keyword dictionaries, rejections, context snapshots compared exactly with the model, and the Lean "
-          "oracles evaluated on every datagram (chip, core, application id / board mask, connection, stop signal)."),
+          "accepted otherwise (required_rejected, accepted_complete, rejected_sends_nothing); after any block - any nesting, normal exit, "
+          "exception at any depth, method bodies that fail after sending, any sequence of before_close callbacks (which may call "
+          "methods, open blocks, update the context or raise), failing stop signal - the stack is exactly the one before (restore, "
+          "restore_application, block_events, failing_call_unwinds); an application block ends with a stop signal resolved to the "
+          "block's application before any user callback runs, nested application blocks stop the inner application first and "
+          "then the outer one (application_stops, application_events, nested_applications_stop_inner_first); the connection used "
+          "is the local Ethernet chip's when known, the BMP's most specific one (connection_choice).  THE WIRE: for EVERY decorated "
+          "method of the generated signature table, every argument passing and every stack, each request the method's rule emits "
+          "(directly or through inner decorated calls, which are resolved again) is addressed to the chip (x, y) bound for the call "
+          "- (255, 255) for methods without chip coordinates, data-computed chips only for the four methods documented to visit "
+          "many - carries the call's application id, resp. goes to the call's (cabinet, frame, board) [first board of an iterable "
+          "for set_led, board 0 for set_power] with the boards' mask (wire_carries_resolved = soundness of a symbolic execution of "
+          "the rules, absWire_sound, + a decide over the 46 generated signatures x rules, rules_obey_signature_rule; bound_is_resolved "
+          "ties the bound value to the precedence dictionary).  x, y and the application id of a request never depend on how the "
+          "arguments were passed; the core p of inner requests does for exactly 17 methods, 5 of which take p themselves "
+          "(chip_independent_of_passing_style, core_from_context_methods, core_style_dependent_methods, "
+          "core_independent_of_passing_style).  The signature of every decorated method of both controllers is regenerated from "
+          "source and proved well-formed for the decorator.  Tied to the code on every run: every decorated method x passing style "
+          "(positional/keyword/context/default/mixed) x nesting, boards passed as lists / tuples, injected SCP failures at the "
+          "n-th request, failed SDRAM / router allocation, applications that do not load, IOBUF chains, before_close callbacks "
+          "(raising, re-entrant, on application contexts), nested application blocks, discover_connections run for real on fake "
+          "machines of several sizes (dead chips, Ethernet down, boards that do not answer) with every later datagram judged "
+          "against the connection table in force when it was sent, plus random programs with all of these, run on the real "
+          "controllers over recording fake connections; resolved keyword dictionaries, rejections, context snapshots compared "
+          "exactly with the model, and the Lean oracles evaluated on every datagram (chip, core, application id / board mask, "
+          "connection, stop signal)."),
     design="3/C18",
-    note=("Per-method glue (which datagrams a method sends, and which inner decorated calls it makes) is a hand transcription "
-          "validated by exhaustive-over-methods correspondence, not proved.  Inner calls that omit `p` pick it up from the "
-          "context (e.g. get_processor_status under `with mc(p=3)` reads via core 3, with explicit p=3 via core 0): modelled "
-          "as the code behaves and reported as an observation.  count_cores_in_state / wait_for_cores_to_reach_state / "
-          "load_application cannot be driven past `collections.Iterable` on this interpreter (defect F6, property C09); "
-          "their resolution and rejection are still checked.  Board arguments that are iterables are outside the generators."),
+    note=("What is proved about the per-method rules is relative to the transcription `bodyOf` (which sends and which inner "
+          "decorated calls a method makes, with which argument expressions): that transcription is validated by "
+          "exhaustive-over-methods correspondence (every datagram of the real method must match a pattern of the rule, and a "
+          "method that sends nothing where the rule has patterns is a mismatch), not proved; values the rule marks `dyn` "
+          "(addresses, chips found in tables) are not compared.  Observation, not a violation (the property speaks of the "
+          "contextual arguments of the command the caller issued; x / y / app_id are unaffected - proved and observed): inner "
+          "decorated calls that omit `p` take it from the context stack, so e.g. `mc.get_processor_status(3, 1, 2)` reads via core "
+          "0 but `with mc(x=1, y=2, p=3): mc.get_processor_status()` via core 3; the 17 methods the model proves affected are "
+          "exactly the ones observed (evidence: wire_depends_on_passing_style, core_follows_ambient_p).  Whether a method body "
+          "fails (network error, failed allocation) is an input of the model taken from the run, not predicted.  The connection "
+          "table after discover_connections is observed (snapshot per datagram), not predicted by the model; connections are "
+          "identified by the host they were opened to.  F6 is fixed in the pinned tree: count_cores_in_state / "
+          "wait_for_cores_to_reach_state / load_application are driven like every other method."),
     technique="Lean 4 theorems over a hand-written model + translator for signatures/constants + differential correspondence + Lean spec as oracle")
 
 THEOREMS = ["signatures_wellformed", "every_method_has_rule", "precedence", "precedence_accepted", "ctxLookup_innermost",
             "default_param", "default_kwonly", "passing_styles_agree",
             "required_rejected", "rejected_names_required", "accepted_complete", "rejected_sends_nothing",
             "restore", "restore_application", "restore_inner", "restore_arguments",
-            "stop_targets_application", "application_stops", "connection_choice_mc", "connection_choice_bmp"]
+            "stop_targets_application", "application_stops", "connection_choice_mc", "connection_choice_bmp",
+            # deepening round
+            "application_events", "nested_applications_stop_inner_first", "block_events", "failing_call_unwinds",
+            "rules_obey_signature_rule", "rules_chip_known", "carries_of_ruleOk", "wire_carries_resolved",
+            "sent_carries_resolved", "bound_is_resolved", "chip_independent_of_passing_style",
+            "core_from_context_methods", "core_style_dependent_methods", "core_independent_of_passing_style"]
 
 RULE = ("systematic part: every decorated method of MachineController and BMPController x passing style (positional, keyword, "
         "context, default, mixed) x nesting (none, one block, two blocks with partial override, block left by exception then "
-        "call); random part: with-structured programs of depth <= 4 with blocks over random subsets of argument names, "
-        "application blocks (explicit / contextual id, failing stop), update_current_context, raise, try/except, calls of "
-        "random methods in random styles (incl. calls lacking required arguments), over random connection tables (machine "
-        "sizes, root chips, discovered Ethernet chips; BMP board/frame connections).  Contextual values are drawn pairwise "
-        "distinct so that a swapped or stale value cannot match by accident.  Non-trivial: a program in which at least one "
-        "call resolved an argument from a context or was rejected inside a block, or a block was left by exception.")
+        "call), boards of set_power / set_led as ints, lists and tuples; every MachineController method x injected fault (SCP "
+        "error at request 0 and at a later request, allocation returning 0, cores not reaching wait, IOBUF chain) inside a block "
+        "with / without callbacks, caught / uncaught; 8 callback programs (callback calling a method in the closing context, body "
+        "raising, callback raising with a later callback skipped, callback opening blocks and updating the context, user callback "
+        "on an application context, failing stop signal, nested application blocks left by exception, BMP); discover_connections "
+        "on fake machines up to 24x12 with dead chips / Ethernet down / boards not answering, followed by commands to chips of "
+        "the machine over the discovered table; random part: with-structured programs of depth <= 4 with blocks over random "
+        "subsets of argument names, before_close callbacks, application blocks (explicit / contextual id, failing stop, user "
+        "callbacks), update_current_context, raise, try/except, calls of random methods (incl. discover_connections) in random "
+        "styles (incl. calls lacking required arguments) with random faults, over random connection tables (machine sizes, root "
+        "chips, discovered Ethernet chips; BMP board/frame connections).  Contextual values are drawn pairwise distinct so that a "
+        "swapped or stale value cannot match by accident.  Non-trivial: a program in which at least one call resolved an argument "
+        "from a context or was rejected inside a block, or a block was left by exception.")
 
 _APLX = [None]
 MC_CTX = ["x", "y", "p", "app_id", "processor"]
@@ -1253,16 +1289,20 @@ def style_probe(ctx):
     if unpredicted:
         ctx.mismatch("c18.style", "the core of a request depends on the context for %r, which the model "
                      "(core_from_context_methods) does not predict" % (unpredicted,), {})
-    ctx.extra["core_from_context_not_observed"] = sorted(model_core - set(differs) - set(ambient))
+    missing = sorted(model_core - set(differs) - set(ambient))
+    ctx.extra["core_from_context_not_observed"] = missing
+    if missing:
+        ctx.mismatch("c18.style", "the model says the core of an inner request of %r is left to the context, "
+                     "but no such dependence was observed" % (missing,), {})
 
 
 def run(ctx):
     ctx.extra["rule"] = RULE
     ctx.assumptions += [
-        "each with-block uses a fresh context object (the `with c(...)` / `with mc.application(..)` idiom), exits are LIFO as `with` guarantees",
-        "board / led arguments are ints (iterables of boards are outside the generators)",
-        "per-method wire rules (bodyOf) are a transcription validated by exhaustive-over-methods correspondence, not proved",
-        "the fake connection answers every command successfully; SCP failure paths of method bodies (e.g. failed SDRAM allocation) are not driven",
+        "each with-block uses a fresh context object (the `with c(...)` / `with mc.application(..)` idiom), exits are LIFO as `with` guarantees; callbacks are registered before the block is entered",
+        "board arguments are ints or non-empty lists / tuples of distinct non-negative ints (set_power / set_led only: the other BMP methods document a single board); led arguments are ints",
+        "the transcription `bodyOf` of which requests / inner decorated calls a method makes is validated by exhaustive-over-methods correspondence, not proved; what IS proved about it: wire_carries_resolved and the passing-style theorems",
+        "whether a method body fails (SCP error, failed allocation) is taken from the implementation run as an input of the model; the connection table rewritten by discover_connections is observed per datagram, not predicted",
     ]
     try:
         check_signature_table(ctx)
